@@ -303,10 +303,34 @@ func runC12(c *Ctx, r *Report) {
 				}
 			}
 		}
+		scanArg := ssa.Value(nil)
+		if M != nil {
+			scanArg = M.Call.Args[1]
+		} else {
+			// the scan may live in a helper: any-of(patterns, bytes) written as an exists-loop over the patterns
+			for _, ci := range callInstrs(fn) {
+				call, ok := ci.(*ssa.Call)
+				if !ok {
+					continue
+				}
+				sc := call.Call.StaticCallee()
+				if sc == nil || sc.Pkg == nil || !isLibPkgPath(sc.Pkg.Pkg.Path()) || sc.Blocks == nil || len(call.Call.Args) != 2 {
+					continue
+				}
+				if !isFieldLoadNamed(call.Call.Args[0], "CompletePatterns") {
+					continue
+				}
+				sh := analyseExistsLoop(c, sc)
+				if sh.Kind == "other: regexp.Match(elem,param)" && len(sh.Problems) == 0 {
+					M = call
+					scanArg = call.Call.Args[1]
+				}
+			}
+		}
 		if M == nil {
 			r.Bad("C12/completion-gate", "scan exists", c.Pos(fn.Pos()), "the completion patterns are never matched against the device's response: a dialogue that finishes early (level granted/refused without asking) still gets the next input typed")
 		} else {
-			r.Check(M.Call.Args[1] == raRes, "C12/completion-gate", "scan uses the bytes of the read just completed", c.Pos(M.Pos()), "p.Match(pb)",
+			r.Check(scanArg == raRes, "C12/completion-gate", "scan uses the bytes of the read just completed", c.Pos(M.Pos()), "p.Match(pb)",
 				"the completion patterns are matched against something other than the bytes of the prompt read that just completed")
 			// guards
 			var extra []string
